@@ -1287,6 +1287,27 @@ class Req:
         return (len(g) >= 1 and bool(splits) and same,
                 "the MAC split is guarded by a comparison of the buffer length with the split position itself (guards: %d, same value: %s)" % (len(g), same))
 
+    def r_aux_word_only_for_nonzero_level(self):
+        """In the marker writer every multi-byte access of the buffer (range index, copy) is reached only through the edge of a
+        test of the level word that excludes 0: for level 0 the freshly shrunk buffer may be a single byte."""
+        f = self.aux_fn("hss_store_aux_marker")
+        lvl = 2
+        wide = [b for b, t in f.calls() if not f.blocks[b]["cleanup"] and core.strip_generics(core.callee_path(t) or "").rsplit("::", 1)[-1] in ("index_mut", "index", "copy_from_slice", "split_at_mut", "split_at")]
+        if not wide:
+            return (True, "no multi-byte access in the marker writer")
+
+        def dep(d):
+            return lvl in d["args"] and any(r["op"] in ("Eq", "Ne", "Gt", "Ge", "Lt", "Le") for r in d["binops"])
+        g = gf.find_guards(f, dep, wide, require_error_exit=False)
+        # the guarding comparison must be against the constant 0 (== 0 / != 0 / > 0 / >= 1)
+        okc = False
+        for gd in g:
+            for r in gd.deps["binops"]:
+                cv = [core.op_const_val(r["a"]), core.op_const_val(r["b"])]
+                if (r["op"] in ("Eq", "Ne", "Gt", "Lt") and 0 in cv) or (r["op"] in ("Ge", "Le") and 1 in cv):
+                    okc = True
+        return (bool(g) and okc, "%d multi-byte accesses in %s, guarded by a zero test of the level word: %s" % (len(wide), f.path, bool(g) and okc))
+
     def r_aux_fresh_level_from_optimal(self):
         f = self.fn("hss::definitions::HssPrivateKey::get_expanded_aux_data")
         st = self.aux_fn("hss_store_aux_marker").path
